@@ -651,8 +651,8 @@ class C13(Property):
                 shown, repaired), None
         if exp is UNSPEC:
             # whatever comes out must at least be stable when the gate accepts it
-            if isinstance(out, dict) and gate is True and again != out:
-                return '%s: output %r is accepted by the gate but normalizing it again gives %r' % (shown, out['ok'], again), None
+            if isinstance(out, dict) and again != out:
+                return '%s: normalizing the output %r again gives %r' % (shown, out['ok'], again), None
             return None, None
         if exp[0] == 'garbage':
             if isinstance(out, dict) and gate is True:
@@ -696,7 +696,7 @@ class C13(Property):
                 return '%s: mixed case string changed into %r' % (shown, s), None
             if sp[2] in ('lc', 'uc') and unicase(s) != unicase(exp[1]):
                 return '%s: %r is not a case variant of the input' % (shown, s), None
-        if gate is True and again != out:
+        if again != out:
             return '%s: normal form %r is not a fixed point: normalizing it again gives %r' % (shown, s, again), None
         if n['t'] == 'str' and repaired is not None and gate is True and exp[0] == 'value':
             ok_in = c03.spec_verdict(dt, None, n['v'])
